@@ -126,6 +126,32 @@ def lifecycle_and_size(ctx):
                     ctx.count("reopened-port")
                     judge(dict(scenario="port closed and opened again", frames_before=before, frames_after=after, at=list(hist[-1])),
                           got, q, "after the port was closed and opened again a data frame is not acknowledged with its own sequence number")
+    # theorem `C06_reopened_port` on the implementation: whatever a connection left behind (numbers advanced by ACKs and data
+    # frames, the beginning of a frame in the buffer), after close() + connection_made() the log of a stream is the log a
+    # fresh receiver gives for it (that one is tied to the model by the `rx` comparison below); closed, nothing is written
+    for j in range(ctx.scale(25, 200)):
+        p, log = rxworld.make(r.randrange(4), True, False, (), False)
+        feed(p, log, streams.command_frame(r, r.randrange(4)))
+        if r.random() < 0.6:
+            feed(p, log, streams.command_frame(r, r.randrange(4))[:r.randrange(1, 9)])     # leaves a partial frame behind
+        labels, s2 = streams.stream(r, nmax=5, hostile=r.random() < 0.5)
+        chunks = [c for _l, cs in list(streams.chunkings(r, s2, 2, 1))[:1] for c in cs] or [s2]
+        p.close()
+        closed_log = feed(p, log, streams.command_frame(r, r.randrange(4)))
+        p.close()
+        p.connection_made(rxworld.RecTransport(log))
+        got = [x for c in chunks for x in feed(p, log, c)]
+        outs, _final, _raised = rxworld.session(chunks)
+        fresh = flat(outs)
+        inp = dict(scenario="stream after close() + connection_made()", stream=hx(s2), elements=labels, chunks=[hx(c) for c in chunks])
+        ctx.case(("reopen-stream", j), nontrivial=len(fresh) > 0, sample=dict(elements=labels, chunks=len(chunks), log=[x[:30] for x in got[:4]]))
+        ctx.count("reopened-port-stream")
+        if got != fresh:
+            ctx.counterexample("reopened-differs-from-fresh", inp, [x[:50] for x in fresh], [x[:50] for x in got],
+                               "after close() and connection_made() the receiver's log differs from a fresh receiver's on the same stream")
+        if any(not x.startswith("D") for x in closed_log):
+            ctx.counterexample("closed-port-wrote", inp, "hand-up only", [x[:50] for x in closed_log],
+                               "something other than a hand-up happened for a data frame received while the port is closed")
     for n in [248, 249, 250, 254, 255, 256, 300, 500, 1000] + [r.randrange(248, 1200) for _ in range(ctx.scale(6, 60))]:
         for flags in (0xC0, 0x40, 0x00, 0x80):
             q = r.randrange(4)
